@@ -426,21 +426,25 @@ def iter_beacon_config_blocks(
         yield from iter_beacon_config_blocks(fobj, left_xor_keys, xordecode=xordecode, all_xor_keys=False)
 
 
-class _ReadOnlyList(list):
-    """A list that rejects modification, for the values of the read-only settings mappings.
+class _SettingsDict(OrderedDict):
+    """The dictionary behind the read-only settings mappings, it hands out copies of its list values.
 
-    The mappings are cached, a caller that modifies a list it was handed would change the settings for everyone else.
-    It still is a `list` (compares equal to one, can be sliced, added, serialized), copies are ordinary lists.
+    The mappings are cached. A caller that modifies a list it was handed (or a library function that normalises
+    its argument in place) must not change the settings for everyone else.
     """
 
-    def _read_only(self, *args, **kwargs):
-        raise TypeError("settings are read-only, make a copy with list() to modify")
+    def __getitem__(self, key):
+        value = super().__getitem__(key)
+        return list(value) if isinstance(value, list) else value
 
-    __setitem__ = __delitem__ = __iadd__ = __imul__ = _read_only
-    append = extend = insert = pop = remove = clear = reverse = sort = _read_only
+    def get(self, key, default=None):
+        return self[key] if key in self else default
 
-    def __reduce__(self):
-        return (list, (list(self),))
+    def values(self):
+        return [self[key] for key in self]
+
+    def items(self):
+        return [(key, self[key]) for key in self]
 
 
 def make_byte_list(exclude: List[bytes] = None) -> List[bytes]:
@@ -939,7 +943,7 @@ class BeaconConfig:
         Returns:
             OrderedDict
         """
-        settings = OrderedDict()
+        settings = _SettingsDict()
         for setting in self.settings_tuple:
             val = setting.value
             if index_type == "name":
@@ -957,8 +961,6 @@ class BeaconConfig:
                 pretty_func = SETTING_TO_PRETTYFUNC.get(setting.index)
                 if pretty_func:
                     val = pretty_func(val)
-                    if isinstance(val, list):
-                        val = _ReadOnlyList(val)
             settings[key] = val
         return MappingProxyType(settings)
 
